@@ -91,6 +91,11 @@ int choose(Sched& s, bool exclude_cur_blocked) {
         if (s.script_pos < s.cfg.script.size()) {
             int want = s.cfg.script[s.script_pos];
             if (::std::find(en.begin(), en.end(), want) != en.end()) pick = want;
+            else if (want >= 0 && want < (int)s.th.size() && s.th[want].st == BLK_JOIN) {
+                // the wanted thread waits for another one to finish: let that one run to its end
+                int j = s.th[want].join_tid;
+                if (::std::find(en.begin(), en.end(), j) != en.end()) pick = j;
+            }
         } else pick = en[s.rng() % en.size()];      // script exhausted: free running
         break;
     }
@@ -179,17 +184,25 @@ void maybe_spurious(Sched& s) {
 bool Runtime::active() { return S().active; }
 int Runtime::self() { return tl_self; }
 int Runtime::new_object_id() { return S().next_obj++; }
-static void guided_advance(int tid, int kind) {
+::std::function<bool(int)>& load_filter() { static ::std::function<bool(int)> f; return f; }
+void set_guided_load_filter(::std::function<bool(int)> f) { load_filter() = ::std::move(f); }
+static void guided_advance(int tid, int kind, int objid = -1) {
     auto& s = S();
-    if (s.cfg.strategy != GUIDED || !(s.cfg.guided_kinds & (1u << kind))) return;
+    if (s.cfg.strategy != GUIDED) return;
+    bool counted = (s.cfg.guided_kinds & (1u << kind)) != 0;
+    if (!counted && kind == K_LOAD && load_filter() && objid >= 0 && load_filter()(objid)) counted = true;
+    if (!counted) return;
     if (s.script_pos < s.cfg.script.size()) {
         if (s.cfg.script[s.script_pos] == tid) { s.script_pos++; s.res.guided_consumed = s.script_pos; }
-        else s.res.diverged = true;       // a counted operation happened out of the scripted order
+        else {
+            if (!s.res.diverged && getenv("VSCHED_DEBUG")) ::std::fprintf(stderr, "vsched: guided divergence at script position %zu: expected t%d, t%d performed kind %d\n", s.script_pos, s.cfg.script[s.script_pos], tid, kind);
+            s.res.diverged = true;       // a counted operation happened out of the scripted order
+        }
     }
 }
 void Runtime::observe(int kind, int objid, long long before, long long after) {
     if (!S().active) return;
-    guided_advance(tl_self, kind);
+    guided_advance(tl_self, kind, objid);
     if (observer()) observer()(tl_self, kind, objid, before, after);
 }
 void set_observer(::std::function<void(int, int, int, long long, long long)> f) { observer() = ::std::move(f); }
